@@ -19,6 +19,20 @@ def sample_model_dict() -> dict:
         return tomllib.load(f)
 
 
+def special_model(base: dict, ceiling_ft=None, climb_ff_scale=None):
+    """The sample table with a lower ceiling and / or a thirstier climb and descent."""
+    d = copy.deepcopy(base)
+    cols = [c.lower() for c in d['flight_performance']['cols']]
+    iff, iro = cols.index('fuel_flow'), cols.index('rocd')
+    if climb_ff_scale:
+        for r in d['flight_performance']['data']:
+            if abs(r[iro]) > 1e-6:
+                r[iff] *= climb_ff_scale
+    if ceiling_ft:
+        d['maximum_altitude_ft'] = ceiling_ft
+    return d
+
+
 def variant_model(rng, base: dict):
     """A valid variant of the sample table: values scaled by smooth FL-only factors per
     phase, some flight levels removed (complete grid kept), other ceiling / masses."""
